@@ -240,5 +240,8 @@ class DeepONetDataCondition(DataCondition):
                 {**model_out.coordinates, **trunk_in.coordinates}
             )
         else:
+            # pair the columns by name: the targets may list the output variables
+            # in another order than the model
+            out = out[..., list(model_out.space.keys())]
             model_out = model_out.as_tensor
         return torch.abs(model_out - out.as_tensor)
